@@ -112,24 +112,28 @@ Print Assumptions C17_merge_timeout_plain_min_refuted.
 
 (* ======================================================================================== *)
 (* The reader with the arithmetic Go performs (int64, wrapping l.n+1 and l.n-n, panicking
-   p[:l.n+1]): for EVERY limit 0 <= limit <= 2^63-2 nothing wraps, the coded Read never panics
-   and IS the ideal reader of C17_limit_exact — so exactness holds on that whole range. *)
+   p[:l.n+1]): for EVERY remaining allowance 0 <= n <= 2^63-1 nothing wraps, the coded Read never
+   panics and IS the ideal reader of C17_limit_exact.  Buffer lengths are Go ints (< 2^63); that is
+   only needed at n = 2^63-1, where `int64(len(p))-1 > l.n` (ec3b610) must not hold. *)
 Theorem C17_int64_read_refines_ideal :
   forall (A : Type) (s : @mbr A) m,
-  0 <= m_n s <= max_int64 - 1 -> mbr_read64 s m = R_ok (mbr_read s m).
+  0 <= m_n s <= max_int64 -> (m_n s < max_int64 \/ Z.of_nat m < two63) ->
+  mbr_read64 s m = R_ok (mbr_read s m).
 Proof. intros A. exact (@mbr_read64_refines A). Qed.
 Print Assumptions C17_int64_read_refines_ideal.
 
 Example C17_int64_read_refines_ideal_nonvacuous :
-  mbr_read64 (mbr_init (max_int64 - 1) [1;2;3]%N [] true) 8%nat
+  mbr_read64 (mbr_init max_int64 [1;2;3]%N [] true) 8%nat
   = R_ok ([1;2;3]%N, Some EOF,
-          {| m_n := max_int64 - 4; m_err := Some EOF;
+          {| m_n := max_int64 - 3; m_err := Some EOF;
              m_u := {| u_data := []; u_script := []; u_eof_with_data := true |} |}).
 Proof. vm_compute. reflexivity. Qed.
 
-Theorem C17_limit_exact_all_int64_partial :
+(* FULL strength: the limit is exact for every limit the directive can configure, 0..2^63-1
+   (`limits 9223372036854775807` included, which used to panic on the first Read: F-C17-2) *)
+Theorem C17_limit_exact_all_int64 :
   forall (A : Type) (limit : Z) (body : list A) script eofd bufs,
-  0 <= limit <= max_int64 - 1 ->
+  0 <= limit <= max_int64 -> (limit < max_int64 \/ forall m, In m bufs -> Z.of_nat m < two63) ->
   exists d e s', read_all64 (mbr_init limit body script eofd) bufs = R_ok (d, e, s') /\
   read_all (mbr_init limit body script eofd) bufs = (d, e, s') /\
   d = firstn (length d) body /\ Z.of_nat (length d) <= limit /\
@@ -137,25 +141,15 @@ Theorem C17_limit_exact_all_int64_partial :
   (e = Some TooLarge -> limit < Z.of_nat (length body) /\ d = firstn (Z.to_nat limit) body) /\
   e <> Some ErrOther.
 Proof. intros A. exact (@limit_exact_int64 A). Qed.
-Print Assumptions C17_limit_exact_all_int64_partial.
+Print Assumptions C17_limit_exact_all_int64.
 
-(* ... but NOT for limit = 2^63-1 (which `limits 9223372036854775807` configures): l.n+1 wraps to
-   -2^63 and the very first non-empty Read panics, whatever the body. *)
-Theorem C17_limit_exact_all_int64_refuted :
-  exists (limit : Z) (body : list N) script eofd bufs,
-  0 <= limit <= max_int64 /\ read_all64 (mbr_init limit body script eofd) bufs = R_panic.
-Proof. exact limit_exact_all_int64_refuted. Qed.
-Print Assumptions C17_limit_exact_all_int64_refuted.
-
-Theorem C17_limit_maxint64_always_panics :
-  forall (A : Type) (body : list A) script eofd m bufs,
-  (1 <= m)%nat -> read_all64 (mbr_init max_int64 body script eofd) (m :: bufs) = R_panic.
-Proof. intros A. exact (@read_all64_maxint64_panics A). Qed.
-Print Assumptions C17_limit_maxint64_always_panics.
-
-Example C17_limit_maxint64_always_panics_nonvacuous :
-  read_all64 (mbr_init max_int64 ([] : list N) [] false) [8%nat] = R_panic.
-Proof. vm_compute. reflexivity. Qed.
+Example C17_limit_exact_all_int64_nonvacuous :
+  (forall m, In m [4;4]%nat -> Z.of_nat m < two63) /\
+  read_all64 (mbr_init max_int64 [1;2;3]%N [] true) [4;4]%nat
+  = R_ok ([1;2;3]%N, Some EOF,
+          {| m_n := max_int64 - 3; m_err := Some EOF;
+             m_u := {| u_data := []; u_script := []; u_eof_with_data := true |} |}).
+Proof. split; [intros m [<-|[<-|[]]]; vm_compute; reflexivity | vm_compute; reflexivity]. Qed.
 
 (* negative limits (never produced by the directive, see C17_parse_size_in_range) *)
 Theorem C17_negative_limit_misbehaves :
@@ -171,12 +165,12 @@ Example C17_negative_limit_misbehaves_nonvacuous :
 Proof. split; vm_compute; reflexivity. Qed.
 
 (* Count level (the underlying reader may claim ANY counts 0..2^63-1, so the boundary is
-   reachable): for every limit up to 2^63-2 and every caller that keeps reading, the counts
+   reachable): for every limit up to 2^63-1 and every caller that keeps reading, the counts
    handed out are non-negative and add up to min(limit, what the reader claimed); the remaining
    allowance never leaves [0, limit]; too-large is reported iff the claims exceed the limit. *)
 Theorem C17_count_exact_int64 :
   forall limit bufs answers,
-  0 <= limit <= max_int64 - 1 -> answers_ok answers ->
+  0 <= limit <= max_int64 -> (limit < max_int64 \/ forall m, In m bufs -> m < two63) -> answers_ok answers ->
   exists outs s' consumed rest,
     cnt_run (cnt_init limit) bufs answers = R_ok (outs, s', rest) /\ answers = consumed ++ rest /\
     (forall o, In o outs -> 0 <= fst o) /\
@@ -187,20 +181,16 @@ Proof. exact count_exact_int64. Qed.
 Print Assumptions C17_count_exact_int64.
 
 Example C17_count_exact_int64_nonvacuous :
-  answers_ok [(max_int64 - 2, None); (1, None); (1, None)] /\
-  cnt_run (cnt_init (max_int64 - 1)) [4; 4; 4; 4] [(max_int64 - 2, None); (1, None); (1, None)]
-  = R_ok ([(max_int64 - 2, None); (1, None); (0, Some TooLarge); (0, Some TooLarge)],
+  answers_ok [(max_int64 - 1, None); (1, None); (1, None)] /\
+  (forall m, In m [4; 4; 4; 4] -> m < two63) /\
+  cnt_run (cnt_init max_int64) [4; 4; 4; 4] [(max_int64 - 1, None); (1, None); (1, None)]
+  = R_ok ([(max_int64 - 1, None); (1, None); (0, Some TooLarge); (0, Some TooLarge)],
           {| c_n := 0; c_err := Some TooLarge |}, []).
 Proof.
-  split; [|vm_compute; reflexivity].
-  intros a [<-|[<-|[<-|[]]]]; cbn; unfold max_int64, two63; split; try lia; discriminate.
+  split; [|split; [|vm_compute; reflexivity]].
+  - intros a [<-|[<-|[<-|[]]]]; cbn; unfold max_int64, two63; split; try lia; discriminate.
+  - intros m [<-|[<-|[<-|[<-|[]]]]]; unfold two63; lia.
 Qed.
-
-Theorem C17_count_maxint64_panics :
-  forall m bufs answers, m <> 0 -> - two63 < m ->
-  cnt_run (cnt_init max_int64) (m :: bufs) answers = R_panic.
-Proof. exact count_maxint64_panics. Qed.
-Print Assumptions C17_count_maxint64_panics.
 
 (* ---- size strings of the limits directive ---- *)
 (* whatever is accepted lies in 1..2^63-1: the reader is never set up with a zero or negative limit *)
@@ -214,27 +204,26 @@ Example C17_parse_size_in_range_nonvacuous :
   accept_size (bs "-5"%string) = None /\ accept_size (bs "9223372036854775807"%string) = Some max_int64.
 Proof. repeat split; vm_compute; reflexivity. Qed.
 
-(* "the parsed value is number*unit exactly, or an error" is FALSE: the product is an int64
-   product and a wrapped value that happens to be >= 1 is accepted *)
-Theorem C17_parse_size_exact_refuted :
-  exists s n u v, denote s = Some (n, u) /\ accept_size s = Some v /\ v <> n * u.
-Proof. exact parse_size_exact_refuted. Qed.
-Print Assumptions C17_parse_size_exact_refuted.
-
-(* strongest true statement: an accepted string denotes sign/digits/unit with the number in
-   int64 range, the value is the WRAPPED product, and it is the exact product whenever that
-   product fits int64 *)
-Theorem C17_parse_size_exact_partial :
+(* the parsed value is number*unit EXACTLY (unbounded integers), or an error: an accepted string
+   denotes sign/digits/unit, its number is non-negative, and the configured value is the true product,
+   which lies within 1..2^63-1 (parseSize forms the int64 product only when it fits: b9c6637) *)
+Theorem C17_parse_size_exact :
   forall s v, accept_size s = Some v ->
-  exists n u, denote s = Some (n, u) /\ - two63 <= n < two63 /\ 1 <= u <= 1073741824 /\
-    v = wrap64 (n * u) /\ 1 <= v <= max_int64 /\
-    (- two63 <= n * u < two63 -> v = n * u /\ 1 <= n * u).
-Proof. exact accept_size_denotes. Qed.
-Print Assumptions C17_parse_size_exact_partial.
+  exists n u, denote s = Some (n, u) /\ v = n * u /\ 1 <= v <= max_int64 /\
+    0 <= n < two63 /\ 1 <= u <= 1073741824.
+Proof. exact accept_size_exact. Qed.
+Print Assumptions C17_parse_size_exact.
+
+Example C17_parse_size_exact_nonvacuous :
+  accept_size (bs "8589934591GB"%string) = Some 9223372035781033984 /\
+  accept_size (bs "8589934592GB"%string) = None /\
+  accept_size (bs "18014398509481985KB"%string) = None /\
+  accept_size (bs "-17179869181GB"%string) = None.
+Proof. repeat split; vm_compute; reflexivity. Qed.
 
 (* conversely every string that denotes a product within 1..2^63-1 is accepted with exactly that
-   value, and a rejected string denotes nothing or a product outside that range: so accepted
-   values are exact EXCEPT for overflowing products (the refuted case above) *)
+   value, and a rejected string denotes nothing or a product outside that range: together with
+   C17_parse_size_exact, a size is accepted IFF it denotes a product within 1..2^63-1 *)
 Theorem C17_parse_size_complete :
   forall s n u, denote s = Some (n, u) -> 1 <= n * u <= max_int64 -> accept_size s = Some (n * u).
 Proof. exact accept_size_complete. Qed.
@@ -265,24 +254,40 @@ Example C17_backend_never_beyond_limit_nonvacuous :
   consumer_reads 3 [1;2;3;4;5]%N [2;1;5]%nat true [4;4;4;4]%nat = ([1;2;3]%N, Some TooLarge).
 Proof. vm_compute. reflexivity. Qed.
 
-(* "whenever the reader reports too-large the client sees 413" is FALSE of the code: *)
-Theorem C17_too_large_is_413_refuted :
-  exists k clf bs, bs = 200 /\ consumer_status k clf (Some TooLarge) bs <> 413.
-Proof. exact too_large_is_413_refuted. Qed.
-Print Assumptions C17_too_large_is_413_refuted.
+(* FULL strength: whenever the reader reports too-large the client sees 413 — for every consumer
+   the model covers (streaming proxy, proxy buffering for retries, fastcgi) and both framings
+   (F-C17-4/5/6 repaired: casket bdcc677, c877bef, e7d21d5) *)
+Theorem C17_too_large_is_413 :
+  forall k clf bs, consumer_status k clf (Some TooLarge) bs = 413.
+Proof. exact too_large_is_413. Qed.
+Print Assumptions C17_too_large_is_413.
 
-(* it holds for a streamed proxy upload without Content-Length ... *)
-Theorem C17_too_large_is_413_partial :
-  forall bs, consumer_status ProxyStream false (Some TooLarge) bs = 413.
-Proof. exact too_large_is_413_partial. Qed.
-Print Assumptions C17_too_large_is_413_partial.
-
-(* ... and nowhere else (fastcgi relays the responder's own status) *)
+(* ... and 413 has no other source than the too-large error or the backend's own answer *)
 Theorem C17_too_large_status_table :
-  forall k clf bs, consumer_status k clf (Some TooLarge) bs = 413 <->
-    (k = ProxyStream /\ clf = false) \/ (k = Fastcgi /\ bs = 413).
+  forall k clf e bs, consumer_status k clf e bs = 413 <-> e = Some TooLarge \/ bs = 413.
 Proof. exact too_large_status_table. Qed.
 Print Assumptions C17_too_large_status_table.
+
+(* end to end: a consumer that reads the limited body to its end answers 413 exactly for bodies over
+   the limit, having received exactly the first [limit] bytes; a body within the limit arrives
+   whole and the backend's own status is relayed *)
+Theorem C17_upload_status :
+  forall limit (body : list N) script eofd bufs k clf bs d e,
+  0 <= limit ->
+  (forall m, In m bufs -> (1 <= m)%nat) -> (forall j, In j script -> (1 <= j)%nat) ->
+  (length body + 2 <= length bufs)%nat ->
+  consumer_reads limit body script eofd bufs = (d, e) ->
+  (limit < Z.of_nat (length body) -> d = firstn (Z.to_nat limit) body /\ consumer_status k clf e bs = 413) /\
+  (Z.of_nat (length body) <= limit -> d = body /\ consumer_status k clf e bs = bs).
+Proof. exact upload_status. Qed.
+Print Assumptions C17_upload_status.
+
+Example C17_upload_status_nonvacuous :
+  consumer_reads 3 [1;2;3;4;5]%N [2;1;5]%nat true [4;4;4;4;4;4;4]%nat = ([1;2;3]%N, Some TooLarge) /\
+  consumer_status Fastcgi true (Some TooLarge) 200 = 413 /\
+  consumer_reads 5 [1;2;3;4;5]%N [2;1;5]%nat true [4;4;4;4;4;4;4]%nat = ([1;2;3;4;5]%N, Some EOF) /\
+  consumer_status Fastcgi true (Some EOF) 200 = 200.
+Proof. repeat split; vm_compute; reflexivity. Qed.
 
 (* ---- the listener's http.Server, all merged fields, as the loops are coded ---- *)
 (* each field is the strictest-value merge of ITS OWN column of the group (so the specs
